@@ -11,6 +11,8 @@ pub trait Merge {
         Self: Sized,
     {
         let items: Vec<Self> = items.into_iter().collect();
+        #[cfg(feature = "verif")]
+        crate::verif::point("merge:pass");
         let original_len = items.len();
         let merged = Self::second_pass_merge(items);
         if merged.len() < original_len {
